@@ -42,6 +42,9 @@ fn main() {
   let mut rep = Report::new(&prop);
   match prop.as_str() {
     "C26" => props::c26::run(&ctx, &mut rep),
+    "C29" | "C30" => props::c29::run(&ctx, &mut rep, &prop),
+    "C32" => props::c32::run(&ctx, &mut rep),
+    "C33" => props::c33::run(&ctx, &mut rep),
     other => {
       eprintln!("unknown property {other}");
       std::process::exit(3);
